@@ -5,6 +5,8 @@
 pub mod engine;
 pub mod cli;
 pub mod findings;
+pub mod fuzz;
+pub mod fuzzrun;
 pub mod gen;
 pub mod model;
 pub mod props;
